@@ -599,6 +599,13 @@ func (g *Gen) evalCall(ctx *specCtx, x *ECall) Val {
 		g.nfresh++
 		j1, j2 := fmt.Sprintf("j!q%da", g.nfresh), fmt.Sprintf("j!q%db", g.nfresh)
 		return BoolV{fmt.Sprintf("(forall ((%s Int) (%s Int)) (! (=> (and (<= %s %s) (< %s %s) (< %s (+ %s %s))) (< (select %s %s) (select %s %s))) :pattern ((select %s %s) (select %s %s))))", j1, j2, so, j1, j1, j2, j2, so, l, blk, j1, blk, j2, blk, j1, blk, j2)}
+	case "distinct":
+		// distinct(s): pairwise different elements
+		s := arg(0)
+		blk, so, l := g.seqBlock(ctx, s)
+		g.nfresh++
+		j1, j2 := fmt.Sprintf("j!q%da", g.nfresh), fmt.Sprintf("j!q%db", g.nfresh)
+		return BoolV{fmt.Sprintf("(forall ((%s Int) (%s Int)) (! (=> (and (<= %s %s) (< %s %s) (< %s (+ %s %s))) (not (= (select %s %s) (select %s %s)))) :pattern ((select %s %s) (select %s %s))))", j1, j2, so, j1, j1, j2, j2, so, l, blk, j1, blk, j2, blk, j1, blk, j2)}
 	case "nondecreasing":
 		s := arg(0)
 		blk, so, l := g.seqBlock(ctx, s)
